@@ -205,8 +205,36 @@ def steady_cases(seed, tier):
             ops.append((REQ, b''.join(reqs)))
             ops.append((RES, b''.join(ress)))
         ops.append((CLOSE, None))
-        cfg = {'AUTO_DESTROY': 1, 'DESTROY_DONE': 1, 'LOG_LEVEL': 0, 'URLENC_PARSER': 1, 'MAX_TX': 512, 'DUMP': hxb.DUMP_LOG,
+        cfg = {'AUTO_DESTROY': 1, 'DESTROY_DONE': 2, 'LOG_LEVEL': 0, 'URLENC_PARSER': 1, 'MAX_TX': 512, 'DUMP': hxb.DUMP_LOG,
                'MEM_SAMPLES': max(1, (2 * N // per) // 1000), 'TX_HOOKS': ci % 2}
+        cases.append(((ci, cfg, ops), dict(kind='steady', shape=shape, n=N)))
+    # other orders in which the two halves of a transaction finish: the response completes while the request body is still
+    # being sent (early 4xx/2xx answers), strict alternation, and request chunks that end inside the next request's first line
+    ok = b'HTTP/1.1 200 OK\r\nContent-Length: 2\r\n\r\nok'
+    for ci, shape in enumerate(['early_response', 'alternating', 'split_next_line'], start=len(shapes)):
+        ops = []
+        if shape == 'early_response':
+            for i in range(N):
+                body = b'field=%d&pad=xxxxxxxxxxxxxxxx' % i
+                ops.append((REQ, b'POST /u%d HTTP/1.1\r\nHost: h\r\nContent-Length: %d\r\n\r\n' % (i, len(body)) + body[:7]))
+                ops.append((RES, (b'HTTP/1.1 413 Payload Too Large\r\nContent-Length: 0\r\n\r\n' if i % 3 else ok)))
+                ops.append((REQ, body[7:]))
+        elif shape == 'alternating':
+            for i in range(N):
+                ops.append((REQ, b'GET /a%d HTTP/1.1\r\nHost: h\r\n\r\n' % i))
+                ops.append((RES, ok))
+        else:
+            carry = b''
+            for i in range(N):
+                nxt = b'GET /s%d HTTP/1.1\r\nHost: h\r\n\r\n' % (i + 1)
+                cur = (b'GET /s0 HTTP/1.1\r\nHost: h\r\n\r\n' if i == 0 else carry)
+                k = 2 + i % 5
+                ops.append((REQ, cur + (nxt[:k] if i + 1 < N else b'')))
+                carry = nxt[k:]
+                ops.append((RES, ok))
+        ops.append((CLOSE, None))
+        cfg = {'AUTO_DESTROY': 1, 'DESTROY_DONE': 2, 'LOG_LEVEL': 0, 'URLENC_PARSER': 1, 'MAX_TX': 512, 'DUMP': hxb.DUMP_LOG,
+               'MEM_SAMPLES': max(1, N // 1000), 'TX_HOOKS': ci % 2}
         cases.append(((ci, cfg, ops), dict(kind='steady', shape=shape, n=N)))
     return cases
 
